@@ -521,6 +521,8 @@ from . import shared
 RULES = RULES + shared.bundle('C03', [], ['resolution', 'resolution2d', 'direct_model'])
 from . import folds as _folds
 RULES = RULES + [_folds.fold_rule('C03')]
+from .. import refs as _refs
+RULES = RULES + [_refs.ref_rule('C03')]
 
 
 def run(tier="quick", replay=None):
